@@ -99,6 +99,20 @@ def cargo_layouts(ck):
     shutil.copy(os.path.join(REPO, "Cargo.lock"), os.path.join(d3, "Cargo.lock"))
     open(os.path.join(d3, "src", "main.rs"), "w").write('fn main() { println!("BEGIN\\n{}\\nEND", lib_ext::fail_here()); }\n')
     layouts.append(("path-dependency-outside-the-workspace", d3, ["run", "-q"], None))
+    # the failing assertion is compiled in one member (a library) and runs in a process cargo started for ANOTHER member: the variables cargo
+    # exports to that process (CARGO_MANIFEST_DIR, ..) name the running package, not the one the assertion belongs to
+    d5 = os.path.join(base, "twomembers", "ws")
+    ws_root(d5, ["app", "support", "tools/support"])
+    pkg(os.path.join(d5, "support"), "support")
+    open(os.path.join(d5, "support", "src", "lib.rs"), "w").write(PROGRAM)
+    pkg(os.path.join(d5, "tools/support"), "tools_support")
+    open(os.path.join(d5, "tools/support", "src", "lib.rs"), "w").write("// another member whose directory ends like the first one's\n" * 30)
+    pkg(os.path.join(d5, "app"), "app", 'support = { path = "../support" }\n')
+    open(os.path.join(d5, "app", "src", "main.rs"), "w").write('fn main() { println!("BEGIN\\n{}\\nEND", support::fail_here()); }\n')
+    os.makedirs(os.path.join(d5, "app", "tests"), exist_ok=True)
+    open(os.path.join(d5, "app", "tests", "uses_support.rs"), "w").write('#[test] fn t() { println!("BEGIN\\n{}\\nEND", support::fail_here()); }\n')
+    layouts.append(("assertion-in-a-library-member-run-by-another-member", d5, ["run", "-q", "-p", "app"], None))
+    layouts.append(("assertion-in-a-library-member-run-by-another-member's-test", d5, ["test", "-q", "-p", "app", "--test", "uses_support", "--", "--nocapture"], None))
     # members reached through symbolic links: cargo spells CARGO_MANIFEST_DIR and file!() through the link, the real directory is named differently
     d4 = os.path.join(base, "links", "ws")
     store = os.path.join(base, "links", "store", "pkg-0.1.0")
@@ -115,7 +129,7 @@ def cargo_layouts(ck):
     os.symlink(d, os.path.join(base, "member", "ws-link"))
     layouts.append(("workspace-entered-through-a-symlink", os.path.join(base, "member", "ws-link"), ["run", "-q", "-p", "m_a"], None))
     if ck.tier == "quick":
-        layouts = [l for l in layouts if l[0] in ("member-directory-is-a-symlink", "member-under-a-symlinked-directory", "single-package", "workspace-member", "nested-member", "integration-test-of-a-member", "path-dependency-outside-the-workspace", "package-dir-named-src", "member-named-like-the-workspace-dir")]
+        layouts = [l for l in layouts if l[0] in ("assertion-in-a-library-member-run-by-another-member", "member-directory-is-a-symlink", "member-under-a-symlinked-directory", "single-package", "workspace-member", "nested-member", "integration-test-of-a-member", "path-dependency-outside-the-workspace", "package-dir-named-src", "member-named-like-the-workspace-dir")]
     env = dict(ENV)
     env["CARGO_TARGET_DIR"] = tdir
     dist = {}
@@ -133,7 +147,7 @@ def cargo_layouts(ck):
                           dict(layout=name, cargo=" ".join(args), directory=cwd.replace(base, "<scratch>"), message=msg[:800]))
         ck.corr_record("T3 crate layouts built by cargo (single package, workspace members at several depths, run from different directories, integration test, example, root package with members, path dependency outside the workspace, package directory named `src`, members reached through symbolic links): the report must show the source line",
                        len(layouts), len(layouts), 0, dist, samples=[dict(layout=layouts[0][0])], exhaustive=True,
-                       rule="fixed list of layouts (9 in the quick tier, %d in the thorough tier), each built and run by cargo; CARGO_MANIFEST_DIR and file!() are whatever cargo and rustc provide" % (len(layouts) if ck.tier != "quick" else 13))
+                       rule="fixed list of layouts (10 in the quick tier, %d in the thorough tier), each built and run by cargo; CARGO_MANIFEST_DIR and file!() are whatever cargo and rustc provide" % (len(layouts) if ck.tier != "quick" else 13))
     finally:
         shutil.rmtree(base, ignore_errors=True)
 
